@@ -57,13 +57,18 @@ type subProcess struct {
 	mch                    chan imessage
 }
 
-func newSubProcess(eventBuilder event.IDefinitionInstanceBuilder, idGenerator id.IGenerator, subProcessElement *schema.SubProcess) constructor {
+// parentCtx is the context of the enclosing instance (or sub-process): the
+// sub-process's own tracer must not outlive it.
+func newSubProcess(parentCtx context.Context, eventBuilder event.IDefinitionInstanceBuilder, idGenerator id.IGenerator, subProcessElement *schema.SubProcess) constructor {
 	return func(parentWiring *wiring) (act Activity, err error) {
 
 		flowNodeMapping := NewLockedFlowNodeMapping()
 		defer flowNodeMapping.Finalize()
 
-		ctx, cancel := context.WithCancel(context.Background())
+		// (derived from the instance's context: with context.Background() the
+		// tracer goroutine of a sub-process that is never activated - and is
+		// therefore never cancelled by run - lived forever)
+		ctx, cancel := context.WithCancel(parentCtx)
 		subTracer := tracing.NewTracer(ctx)
 		process := &subProcess{
 			wr:                     parentWiring,
@@ -336,7 +341,7 @@ func newSubProcess(eventBuilder event.IDefinitionInstanceBuilder, idGenerator id
 				return
 			}
 			var node *harness
-			sp := newSubProcess(eventBuilder, idGenerator, element)
+			sp := newSubProcess(ctx, eventBuilder, idGenerator, element)
 			node, err = newHarness(wr, idGenerator, sp)
 			if err != nil {
 				return
